@@ -1,4 +1,5 @@
 pub mod c12;
 pub mod c04;
+pub mod c15;
 #[cfg(feature = "ffi")]
 pub mod c19;
